@@ -187,7 +187,7 @@ func mergeASAACLs(ab *cmdsPair, name, prefix string) {
 		// Add ACL lines marked with [APPEND] behind last permit line.
 		// Find last permit line within entries from Netspoc.
 		i := len(acl) - 1
-		for ; i >= 0; i-- {
+		for ; i >= len(prependACL); i-- {
 			if strings.Contains(acl[i].parsed, "$NAME extended permit") {
 				break
 			}
@@ -222,7 +222,7 @@ func mergeIOSACLs(ab *cmdsPair, name, prefix string) {
 		// Add ACL lines marked with [APPEND] behind last permit line.
 		// Find last permit line within entries from Netspoc.
 		i := len(acl) - 1
-		for ; i >= 0; i-- {
+		for ; i >= len(prependACL); i-- {
 			if strings.HasPrefix(acl[i].parsed, "permit ") {
 				break
 			}
